@@ -96,14 +96,24 @@ class C17(Scenario):
     def run_case(self, case, sched_seed, trace=None):
         dq = self._mods()
         DQ = dq.DelayedQueue
-        prims.enable_monitoring([dq], instr_funcs=[DQ.get, DQ.close, DQ.remove, DQ.put] if case["sched"].get("instr") else [])
+        prims.enable_monitoring([dq], instr_funcs=[DQ.get, DQ.close, DQ.remove, DQ.put], instr_on=bool(case["sched"].get("instr")))
         delay = case["delay"]
         dticks = int(delay * TICKS)
-        hist = {"puts": {}, "gets": [], "removes": [], "close": None, "get_calls": []}
+        hist = {"puts": {}, "gets": [], "removes": [], "close": None, "get_calls": [], "raised": []}
         state = {}
+
+        def call(name, fn, *a, **kw):
+            """Library call made by an actor: an exception is a finding about the library, not a harness error."""
+            try:
+                return fn(*a, **kw)
+            except Exception as e:  # noqa: BLE001
+                hist["raised"].append((name, type(e).__name__, str(e)[:200]))
+                return None
 
         def install(p, sim):
             prims.install_base(p, modules_threading=[dq], modules_time=[dq])
+
+        callx = call
 
         def main():
             sim = prims.cur_sim()
@@ -120,7 +130,7 @@ class C17(Scenario):
                         rec = {"id": op[1], "delayed": op[2], "inv_seq": sim.next_seq(), "inv_t": sim.now}
                         hist["puts"][op[1]] = rec
                         sim.rec("put", op[1], op[2], sim.now)
-                        q.put(e, delay=op[2])
+                        call('put', q.put, e, delay=op[2])
                         rec["ret_seq"] = sim.next_seq()
                         rec["ret_t"] = sim.now
 
@@ -128,7 +138,7 @@ class C17(Scenario):
                 while True:
                     call = {"inv_seq": sim.next_seq(), "inv_t": sim.now}
                     hist["get_calls"].append(call)
-                    r = q.get()
+                    r = callx('get', q.get)
                     call["ret_seq"] = sim.next_seq()
                     call["ret_t"] = sim.now
                     call["res"] = None if r is None else r[1]
@@ -151,7 +161,7 @@ class C17(Scenario):
                             pred = lambda e: True  # noqa: E731
                         inv = sim.next_seq()
                         inv_t = sim.now
-                        r = q.remove(pred)
+                        r = call('remove', q.remove, pred)
                         rec = {"inv_seq": inv, "inv_t": inv_t, "ret_seq": sim.next_seq(), "ret_t": sim.now, "res": None if r is None else r[1], "kind": kind}
                         hist["removes"].append(rec)
                         sim.rec("remove", kind, target, rec["res"], sim.now)
@@ -159,7 +169,7 @@ class C17(Scenario):
             def closer():
                 sim.sleep(case["closer"] / TICKS)
                 c = {"inv_seq": sim.next_seq(), "inv_t": sim.now}
-                q.close()
+                call('close', q.close)
                 c["ret_seq"] = sim.next_seq()
                 c["ret_t"] = sim.now
                 hist["close"] = c
@@ -177,14 +187,14 @@ class C17(Scenario):
             state["consumer_done_before_final_close"] = cons.state == "D"
             if hist["close"] is None:
                 c = {"inv_seq": sim.next_seq(), "inv_t": sim.now, "final": True}
-                q.close()
+                call('close', q.close)
                 c["ret_seq"] = sim.next_seq()
                 c["ret_t"] = sim.now
                 hist["final_close"] = c
             if case.get("late_get"):
                 # a get() issued after close() returned must return the end marker at once
                 t0 = sim.now
-                r = q.get()
+                r = call('get', q.get)
                 state["late_get"] = (None if r is None else r[1], sim.now - t0)
             sim.block(lambda: cons.state == "D", why="join-consumer")
 
@@ -201,6 +211,8 @@ class C17(Scenario):
             for u in sim.uncaught:
                 if u["kind"] != "actor":
                     v.append(Violation("uncaught", f"C17:uncaught:{u['exc']}", str(u)))
+            for name, exc, msg in hist["raised"]:
+                v.append(Violation("raised", f"C17:{name}-raised:{exc}", f"{name}() raised {exc}: {msg}"))
             v.extend(self.oracle(case, hist, state, dticks))
             return v, {"sample": {"gets": [(g["res"], g["ret_t"]) for g in hist["gets"]], "removes": [(r["res"], r["ret_t"]) for r in hist["removes"]], "closed_at": (hist["close"] or {}).get("ret_t")}}
 
